@@ -2,7 +2,7 @@
 From Coq Require Import List Bool ZArith Lia Arith.
 From Coq.Strings Require Import Byte.
 Import ListNotations.
-From Zap Require Import Base.Wire C05.Cores C05.CoreProofs C05.Sampling C05.SamplingProofs C05.Model C05.Proofs C06.Model.
+From Zap Require Import Base.Wire C05.Cores C05.CoreProofs C05.Sampling C05.SamplingProofs C05.Model C05.Proofs C06.Pool C06.PoolProofs C06.Model.
 Open Scope Z_scope.
 
 (* the levels at which a logger must lose control *)
@@ -523,9 +523,48 @@ Proof.
     rewrite (not_terminal_thm w lg all_io _ _ Hn), (after_hook_not_terminal lg _ Hn). reflexivity.
 Qed.
 
-Lemma enc_term_spec_term lg l msg :
-  enc_term (must_end lg l) (panic_value (must_end lg l) msg) = spec_term lg l msg.
-Proof. unfold spec_term, panic_value. destruct (must_end lg l) as [[| | |k]|]; reflexivity. Qed.
+(* a call that must end is at one of the three terminal levels *)
+Lemma must_end_level lg l a : must_end lg l = Some a -> (l =? FatalL) = false -> (l =? PanicL) || (l =? DPanicL) = true.
+Proof.
+  unfold must_end. cbn [existsb]. rewrite !orb_false_r. intros H HF. rewrite HF in H.
+  destruct (l =? PanicL); [reflexivity|]. destruct (l =? DPanicL); [reflexivity|]. cbn in H. discriminate H.
+Qed.
+(* the terminal action, acting on an entry that is the one logged, does what the property says: the default panic
+   carries the message, a hook that delegates or dispatches on what it finds in the entry ends the call as the
+   level logged demands *)
+Lemma hook_term_spec_term lg l msg name :
+  hook_term (must_end lg l) {| en_level := l; en_msg := msg; en_name := name |} = spec_term lg l msg.
+Proof.
+  unfold spec_term, hook_term. destruct (must_end lg l) as [[| | |k|k mode]|] eqn:E; try reflexivity.
+  f_equal. f_equal. f_equal.
+  destruct mode as [|p|p]; [reflexivity| |reflexivity].
+  do 3 (try destruct p as [p|p|]); try reflexivity.
+  unfold delegate. cbn [en_level en_msg]. destruct (l =? FatalL) eqn:F; [reflexivity|].
+  rewrite (must_end_level lg l _ E F). reflexivity.
+Qed.
+
+(* what the entry hooks report: the reads of ce.Entry at the hooked cores *)
+Lemma hook_reads_repeat e evs : hook_reads evs (repeat e (ncores evs)) = repeat e (length (ev_hooks_of evs)).
+Proof.
+  induction evs as [|[i|i|h] r IH]; [reflexivity| | |]; unfold ev_hooks_of in *; cbn [ncores hook_reads repeat tl hd flat_map app length].
+  - exact IH.
+  - exact IH.
+  - rewrite IH. reflexivity.
+Qed.
+Lemma map_repeat' {A B} (f : A -> B) x n : map f (repeat x n) = repeat (f x) n.
+Proof. induction n as [|n IH]; [reflexivity|]. cbn [repeat map]. rewrite IH. reflexivity. Qed.
+Lemma spec_seen_model lg name cl evs :
+  let ent := {| en_level := c_level cl; en_msg := c_msg cl; en_name := name |} in
+  spec_seen lg name cl evs
+    (SL (map enc_entry (hook_reads evs (repeat ent (ncores evs)) ++ (if hook_looks (must_end lg (c_level cl)) then [ent] else [])))) = true.
+Proof.
+  intros ent. unfold spec_seen. rewrite hook_reads_repeat, map_app, map_repeat'.
+  change (enc_entry ent) with (SL [SZ (c_level cl); SB (c_msg cl); SB name]).
+  set (x := SL [SZ (c_level cl); SB (c_msg cl); SB name]). set (n := length (ev_hooks_of evs)).
+  assert (H1 : repeat x n ++ [x] = repeat x (n + 1)) by (rewrite repeat_app; reflexivity).
+  assert (H0 : repeat x n ++ [] = repeat x (n + 0)) by (rewrite app_nil_r, Nat.add_0_r; reflexivity).
+  destruct (must_end lg (c_level cl)) as [[| | |k|k m]|]; cbn [hook_looks map]; change (enc_entry ent) with x; rewrite ?H1, ?H0; apply sx_eqb_refl.
+Qed.
 
 Lemma forallb_combine_map {A B} (g : A * B -> bool) (f : A -> B) l :
   forallb g (combine l (map f l)) = forallb (fun a => g (a, f a)) l.
@@ -582,30 +621,32 @@ Proof.
   rewrite <- Hws in HL, HH. split; [exact HL|exact HH].
 Qed.
 
-Lemma spec_model_call dec w lg ids stks st cl :
+Lemma spec_model_call nz dec w lg ids stks st cl :
   wf_call cl = true -> st_inv (sk_init ids stks) st ->
-  spec_call w lg ids stks cl (fst (model_call dec w lg ids st cl)) = true /\
-  st_inv (sk_init ids stks) (snd (model_call dec w lg ids st cl)).
+  spec_call (nz_name nz) w lg ids stks cl (fst (model_call nz dec w lg ids st cl)) = true /\
+  st_inv (sk_init ids stks) (snd (model_call nz dec w lg ids st cl)).
 Proof.
   intros Hwf Hinv. unfold spec_call, model_call, front_call_s. cbv zeta. rewrite (log_call_s_wf dec w lg cl Hwf). cbn [fst snd].
+  rewrite wire_seen_logged. cbn [fst snd].
   destruct (reported_front_ends dec w (lcore lg) (fam_of (c_method cl)) (c_level cl)) as [HL HH]. cbv zeta in HL, HH.
   split.
   - unfold sx_nth. cbn [sx_l nth]. rewrite dec_enc_evs.
     rewrite writes_of_write_events, hooks_of_write_events, HL, HH, !nat_list_eqb_refl.
-    rewrite sync_ok_write_events, enc_term_spec_term, sx_eqb_refl. cbn [andb].
+    rewrite sync_ok_write_events, hook_term_spec_term, sx_eqb_refl. cbn [andb].
+    rewrite spec_seen_model, andb_true_r.
     apply spec_pend_model.
     + intros id. rewrite run_evs_nsinks. apply Hinv.
     + intros Hhi id Hin. apply (run_write_events_settled _ _ Hhi). right. rewrite HL. exact Hin.
   - intros id. rewrite run_evs_nsinks. apply Hinv.
 Qed.
 
-Lemma spec_model_calls ps w lg ids stks cls : forall ctr st,
+Lemma spec_model_calls nz ps w lg ids stks cls : forall ctr st,
   forallb wf_call cls = true -> st_inv (sk_init ids stks) st ->
-  spec_calls w lg ids stks cls (model_calls ps ctr w lg ids st cls) = true.
+  spec_calls (nz_name nz) w lg ids stks cls (model_calls nz ps ctr w lg ids st cls) = true.
 Proof.
   induction cls as [|cl r IH]; intros ctr st Hwf Hinv; [reflexivity|]. cbn [forallb] in Hwf. apply andb_true_iff in Hwf.
   destruct Hwf as [H1 H2]. cbn [model_calls]. cbv zeta.
-  destruct (spec_model_call (ctr_dec ctr ps (c_level cl) (c_bucket cl)) w lg ids stks st cl H1 Hinv) as [Ha Hb].
+  destruct (spec_model_call nz (ctr_dec ctr ps (c_level cl) (c_bucket cl)) w lg ids stks st cl H1 Hinv) as [Ha Hb].
   cbn [spec_calls]. rewrite Ha. cbn [andb]. apply (IH _ _ H2 Hb).
 Qed.
 
@@ -619,8 +660,9 @@ Proof.
   set (w := world_of (sx_nth i 1)). set (lg := dec_logger increase_ok w i). set (ps := sparams (sx_nth i 0)).
   set (calls := map dec_call (sx_l (sx_nth i 6))) in *.
   set (stks := dec_stacks i). set (ids := sk_ids (lcore lg) stks).
+  change (sx_b (sx_nth (sx_nth i 8) 0)) with (nz_name (dec_noise i)).
   unfold sx_nth at 1. cbn [sx_l nth].
-  rewrite (spec_model_calls ps w lg ids stks calls [] (sk_init ids stks) Hwf (fun id => eq_refl)). cbn [andb].
+  rewrite (spec_model_calls (dec_noise i) ps w lg ids stks calls [] (sk_init ids stks) Hwf (fun id => eq_refl)). cbn [andb].
   destruct calls as [|cl [|cl' r]]; try reflexivity.
   destruct (sx_bool (sx_nth i 5)); [|reflexivity].
   cbn [model_calls]. cbv zeta. unfold model_call. cbv zeta. cbn [fst snd].
@@ -634,6 +676,31 @@ Proof.
                             map (fun id => if ErrorL <? c_level cl then count_writes id (leaves_of (call_writers_s dec w (lcore lg) (fam_of (c_method cl)) (c_level cl))) else 0%nat) ids').
   { intros ids'. apply map_ext. intros id. rewrite flushed_write_events. reflexivity. }
   rewrite Heq. apply nat_list_eqb_refl.
+Qed.
+
+(* ---------------- the terminal action and the CheckedEntry pool ---------------- *)
+(* Take any number of threads making any log calls in any interleaving (C06/Pool.v) and in it any call that logged
+   (l, msg, name) through front-end method m at a terminal level: what the terminal action does with the entry it
+   finds - the default panic with ce.Message, a custom hook that logs first, then reads the entry and delegates to
+   WriteThenPanic / WriteThenGoexit / dispatches on ce.Level - is what the property demands of a call at level l
+   with message msg *)
+Theorem action_on_logged_entry dec w lg io m l msg name jobs sc i d :
+  In m methods -> can_log m l = true -> terminal lg l ->
+  In d (t_done (p_thr (prun false sc (pinit jobs)) i)) ->
+  d_ent d = {| en_level := l; en_msg := msg; en_name := name |} ->
+  d_saw d = {| en_level := l; en_msg := msg; en_name := name |} /\
+  hook_term (snd (log_call_s dec w lg io (fam_of m) l)) (d_saw d) = spec_term lg l msg.
+Proof.
+  intros Hm Hc Ht Hin He. destruct (hook_sees_logged_entry jobs sc i d Hin) as [Hs _]. rewrite Hs, He.
+  split; [reflexivity|]. rewrite (terminates_s_thm dec w lg io m l Hm Hc Ht). cbn [snd].
+  rewrite <- (after_hook_terminal lg l Ht), after_hook_must_end. apply hook_term_spec_term.
+Qed.
+(* a hook that logs first and then delegates is a custom hook: it is the action at its level *)
+Lemma expected_action_hook lg :
+  (forall k m, on_fatal lg = HHook k m -> expected_action lg FatalL = AHook k m) /\
+  (forall k m, on_panic lg = HHook k m -> expected_action lg PanicL = AHook k m /\ expected_action lg DPanicL = AHook k m).
+Proof.
+  unfold expected_action. cbn. split; [intros k m ->; reflexivity|intros k m ->; split; reflexivity].
 Qed.
 
 (* nil and no-op hooks are overridden by the defaults; any other hook is the action *)
